@@ -80,13 +80,23 @@ def run_case(job):
         if logged is None:
             msgs.append(f"argv: the executable was never invoked (cmake said: {pc.stderr[-200:]})")
         else:
-            if sorted(logged) != sorted(want):
+            # input and output may be passed in an equivalent spelling (e.g. made absolute); the extras are verbatim
+            def canon(lst):
+                out_ = []
+                for n_, a_ in enumerate(lst):
+                    if a_ in (target, out_cm) or (n_ and lst[n_ - 1] == "-o") or \
+                            os.path.abspath(os.path.join(work, a_)) in (os.path.abspath(os.path.join(work, target)),
+                                                                        os.path.abspath(os.path.join(work, out_cm))):
+                        a_ = os.path.abspath(os.path.join(work, a_))
+                    out_.append(a_)
+                return out_
+            if sorted(canon(logged)) != sorted(canon(want)):
                 msgs.append(f"argv: cminx was invoked with {logged}, expected (in any order) {want}")
             else:
                 it = iter(logged)
                 if not all(any(a == b for b in it) for a in extra):
                     msgs.append(f"argv-order: the extra arguments {extra} are not passed in order: {logged}")
-                if "-o" in logged and logged[logged.index("-o") + 1:logged.index("-o") + 2] != [out_cm]:
+                if "-o" in logged and canon(logged)[logged.index("-o") + 1:logged.index("-o") + 2] != canon(["-o", out_cm])[1:]:
                     msgs.append(f"argv: -o is not followed by the output directory: {logged}")
         direct = [target] + (["-r"] if isdir else []) + extra + ["-o", out_cli]
         pd = subprocess.run([common.PYTHON, "-c", CLI % common.REPO_SRC] + direct, cwd=work, env=env,
